@@ -82,13 +82,7 @@ def run(ctx):
     for c, r in zip(cases, res):
         if r["outcome"] == "raise":
             ctx.notes.append("retargeting raised (C12's domain): %s %s -> %s: %s" % (c[0], c[2], c[4], r["exc"]))
-    kf, bad = [], []
-    for c, r in accepted:
-        name, p, sv, mname, nv, doc = c
-        if mname == "extend-path" and not allows_path(p):
-            kf.append(c)
-        else:
-            bad.append((c, r))
+    bad = list(accepted)
     seen = set()
     for c, r in bad:
         key = (c[3], tuple(k for k in c[1] if isinstance(k, str)))
@@ -99,12 +93,9 @@ def run(ctx):
             break
         ctx.violation({"what": "a retargeted reference is accepted", "file": c[0], "position": [str(x) for x in c[1]],
                        "from": c[2], "to": c[4], "mutation": c[3], "document": c[5]})
-    if kf:
-        pos = sorted(set(".".join(k for k in c[1] if isinstance(k, str)) for c in kf))
-        ctx.known_finding("extending a reference by an undeclared attribute is accepted at positions whose reference takes no path (only the head is resolved): %s; e.g. %s -> %s in %s" % (", ".join(pos), kf[0][2], kf[0][4], kf[0][0]))
     cov = ctx.coverage
     cov["evaluations"] = cov.get("evaluations", 0) + len(cases)
     cov["distinct_nontrivial"] = cov.get("distinct_nontrivial", 0) + len(cases)
-    cov["retarget_sweep"] = {"shipped_valid_schemas": n_ok, "mutants": len(cases), "accepted": len(accepted), "accepted_known_finding_class": len(kf),
+    cov["retarget_sweep"] = {"shipped_valid_schemas": n_ok, "mutants": len(cases), "accepted": len(accepted),
                              "by_mutation": dict(collections.Counter(c[3].split("-")[0] + "/" + r["outcome"] for c, r in zip(cases, res)))}
     cov["disagreements_checked"] = cov.get("disagreements_checked", 0) + len(bad)
